@@ -100,6 +100,59 @@ CHECKS = {
              'Classification: on every path of the decoder exploration over the live opcode trie (symbolic bytes) the reported (breakflow, splitflow, dstflow) equals the architectural class of the decoded mnemonic.',
         note='Trusted: z3, SInt/SBytes proxies, the 40-line classification table by mnemonic family (sys* excluded as the property says).',
         design='5/C17', engine='E2'),
+    'C01': dict(
+        level='model_checking',
+        technique='symbolic execution of the real x86 decoder on symbolic byte strings (z3): per-path SMT validity of "every reported immediate/displacement is a standard encoding of instruction bytes"; GNU objdump as arbiter at path witnesses',
+        text='Hybrid. Solver level: for the rows of the live opcode trie x prefix sets, every immediate and displacement of the decoded instruction is proved, for ALL byte values of the path, to be the '
+             'zero- or sign-extension of 1, 2 or 4 consecutive little-endian instruction bytes, and length/raw bytes are those consumed. Arbiter level (labelled): at up to three witnesses per path '
+             '(model, minimal, maximal free bytes) GNU objdump must report the same length, mnemonic and operands after both Intel renderings are parsed into one canonical operand structure.',
+        note='Trusted: z3, proxies, objdump 2.40 as the IA-32 reference at witnesses, the operand canonicaliser (vf/oracles/objdump.py). Strings objdump rejects or reads with a superfluous prefix are outside the quantifier. '
+             'Agreement with the architecture is decided per path at witnesses only, not for every byte value.',
+        design='5/C01', engine='E2'),
+    'C02': dict(
+        level='model_checking',
+        technique='symbolic execution of the real x86 assembler (parser + encoder) on real text with every number symbolic (z3): per-path SMT validity of "the candidate bytes carry the value"; GNU as + objdump as reference at path witnesses',
+        text='Lines are generated from operand-shape classes (register classes, immediates, memory forms x size keywords) and filtered by GNU as for validity; every NUMBER token is a symbolic integer after the real lexer. '
+             'On every path and for every candidate b the solver proves, for all values of the path, that every number of the line reappears in the operands the real decoder reads from b and vice versa: n == zext(field) or n == sext(field) (mod 2^32), '
+             'i.e. no silent truncation or sign change. At path witnesses (arbiter, labelled) objdump must read b as one instruction of len(b) bytes whose canonical form equals that of the reference encoding objdump(gas(line)).',
+        note='Trusted: z3, proxies, GNU as/objdump 2.40, the operand canonicaliser. Bounds: one line = one mnemonic with <= 3 operands, numbers in [0, 2^32); AT&T lines only through the transliteration of C19; relative-branch lines excluded (C17).',
+        design='5/C02', engine='E2'),
+    'C03': dict(
+        level='model_checking',
+        technique='same symbolic run of the real assembler as C02; per path the real disassembler and re-assembler are run on the candidate with symbolic number fields; fixpoint membership decided per path (z3)',
+        text='Forward (solver): for every accepted line class and every candidate b with symbolic numbers the real decoder accepts b and consumes exactly len(b) bytes, for all number values of the path. '
+             'Text layer (witnesses, labelled): asm(str(dis(b))) contains b at the path witness. The converse direction is covered for the candidates themselves only.',
+        note='Trusted: z3, proxies, GNU as as the producer of canonical encodings. Bounds as C02; rendering is concrete per witness (CPython string formatting is not encoded).',
+        design='5/C03', engine='E2'),
+    'C04': dict(
+        level='translation_validation',
+        technique='E1 translation of the real lifter output for symbolically decoded instructions + SMT equivalence (z3) with an independent executable IA-32 reference (vf/x86spec/sem.py) that is itself validated against the host CPU',
+        text='For every integer-core row of the opcode trie (8/16/32-bit, register/immediate/memory forms, prefixes 66/67) the real decoder and lifter produce the assignment list; under E1, for ALL initial register, flag and memory values, '
+             'the solver proves equality with the reference semantics on general registers, architecturally defined flags (definedness conditions per instruction), written memory bytes and eip. '
+             'A solver counterexample is reported only if the host CPU (32-bit process) agrees with the reference and disagrees with miasmX on that state (three-way vote); otherwise it is inconclusive.',
+        note='Trusted: z3, E1, the reference semantics (validated each run: ~676 instruction/state pairs, 0 disagreements with the CPU), the host CPU. Bounds: one instruction; ModRM/SIB representatives; no segment bases (flat), no faults other than #DE.',
+        design='5/C04', engine='E2+E1'),
+    'C08': dict(
+        level='model_checking',
+        technique='E1 dependency queries (z3): for each decoded instruction, "two pre-states differing in one resource give different reference results" must be unsat for every resource outside the reported read set; writes compared with the reference',
+        text='For every integer-core instruction (reference = vf/x86spec/sem.py) each register, flag and memory operand on which the reference result depends (SMT dependency query over all states) must be in get_instr_expr-derived read set; '
+             'every resource the reference can modify must be in the write set ("exists a state with post != pre" unsat otherwise). Partial claim: the x87/MMX/SSE part of the property is not built.',
+        note='Trusted: z3, E1, the validated reference semantics. Bounds: one instruction, flat memory; over-approximation is accepted; self-dependency of conditionally preserved resources excluded.',
+        design='5/C08', engine='E2+E1'),
+    'C11': dict(
+        level='model_checking',
+        technique='symbolic execution of the real decoder (symbolic bytes) and lifter; the strict IR type checker of E1 decides well-formedness on every path; flag-width clause discharged by SMT (z3)',
+        text='On every decoder path of the rows with lifted semantics (opsize 32 and 16, address-size prefix) the real lifter runs; the result must be a list of ExprAff with register/memory destinations, determinate equal widths as the property states, '
+             'slices in range, compose slots tiling; a one-bit flag receiving a wider source requires an SMT proof that the value is always 0 or 1; no identifier is assigned twice and two memory destinations never intersect (SMT). Exceptions from the lifter are violations keyed by exception and mnemonic.',
+        note='Trusted: z3, proxies, the strict checker in vf/ir2smt.py. Bounds: as the decoder exploration (11 symbolic bytes, SIB representatives).',
+        design='5/C11', engine='E2+E1'),
+    'C19': dict(
+        level='model_checking',
+        technique='symbolic execution of the real x86 assembler on pairs of spellings of one line with shared symbolic numbers; candidate-set equality proved per joint path (z3)',
+        text='For each line class and each respelling (letter case, white space, optional %, st vs st(0), negative spelling and n + k*2^32, reordered memory terms, displacement outside brackets, AT&T transliteration; decimal-vs-hexadecimal digit strings are NOT covered: the digit string -> integer step is where the symbolic number is substituted) both spellings go through the real parser and encoder '
+             'with the SAME symbolic numbers; on every joint path the two candidate lists must be equal as sets of byte strings for all number values.',
+        note='Trusted: z3, proxies, the respelling generator (vf/checks/c19.py). Bounds: <= 3 operands, numbers in [0, 2^32), SIB families listed in evidence.',
+        design='5/C19', engine='E2'),
     'C10': dict(
         level='model_checking',
         technique='symbolic execution of the real x86 decoder on symbolic byte strings (z3): exhaustive path sets per opcode row; witness replay for rendering/truncation/stream clauses',
@@ -117,7 +170,7 @@ NOT_APPLICABLE = {
 }
 
 NOT_YET = {}   # id -> reason, for properties whose check is not built yet
-HOLD = {'C10'}   # built, but known findings not yet adopted: not claimed until a clean run is committed
+HOLD = {'C10', 'C01', 'C02', 'C03', 'C04', 'C08', 'C11', 'C19'}   # built, but known findings not yet adopted: not claimed until a clean run is committed
 
 
 def main():
